@@ -83,10 +83,10 @@ def hkind : HName → Option TKind
   | .s_text_p | .s_text_h | .s_text_list | .s_text_list_item | .s_table_table | .s_table_table_row
   | .s_table_table_cell | .s_table_table_column => some .purge
   | .s_text_span | .s_text_a | .s_text_bookmark_ref | .s_text_bookmark | .s_text_tab | .s_text_line_break
+  | .s_draw_frame | .s_text_s
   | .e_text_p | .e_text_span | .e_text_a | .e_text_h | .e_text_list | .e_text_list_item | .e_table_table
   | .e_table_table_row | .e_table_table_cell => some .flush
-  | .s_draw_frame | .e_draw_frame | .s_draw_textbox | .e_draw_textbox | .s_draw_page | .e_draw_page | .s_text_s
-  | .s_draw_image => some .keep
+  | .e_draw_frame | .s_draw_textbox | .e_draw_textbox | .s_draw_page | .e_draw_page | .s_draw_image => some .keep
   | _ => none
 
 /-- effect of a handler of kind `k` on (written text, pending data); `X` = text the handler itself adds (page names) -/
